@@ -1,5 +1,5 @@
 """Generic spec -> dump -> tour -> replay -> trace-validation pipeline shared by all container checks."""
-import os, json, subprocess, time, random, hashlib
+import os, re, json, subprocess, time, random, hashlib
 from concurrent.futures import ThreadPoolExecutor
 import vf
 
@@ -202,7 +202,14 @@ def replay_and_validate(chk, variant, script, tagname, fmt_desc="", recheck=True
             if recheck and seg and nrej <= 5 and segidx >= 0:
                 confirmed = recheck_segment(chk, variant, script, segidx, tagname)
             if not confirmed:
-                chk.infra.append("rejection not reproduced in isolation (%s/%s line %d): %s" % (tagname, variant.tag, l, txt[:300]))
+                msg = "rejection not reproduced in isolation (%s/%s line %d): %s" % (tagname, variant.tag, l, txt[:300])
+                # a single-threaded replayer that was killed from outside or ran out of time on a loaded machine, and whose segment passes
+                # when run alone, says nothing about the code: noted in the evidence, not a failure of the check
+                if (why & {"crash", "timeout"}) and variant.mode != "tsan" and re.search(r'"sig": ?(-99|-9|137|9)\b|"op": ?"timeout"', txt):
+                    tr = chk.parts.setdefault("transient_environment_events", [])
+                    if len(tr) < 10: tr.append(msg)
+                    continue
+                chk.infra.append(msg)
                 continue
             sig = "%s:%s:%s" % (variant.harness, ",".join(sorted(why)) or "reject", seg_sig(seg))
             detail = "trace %s/%s rejected at event %d (%s)\n%s\nsanitizer/stderr tail:\n%s" % (
